@@ -419,7 +419,18 @@ package ugo
 //@ property C20
 
 // Neither direction panics (safety sweep; nested values by the functions' own contracts).
+// A conversion either yields a value or reports an error, never both and
+// never neither; a converted []any / map[string]any has no missing (nil)
+// element, i.e. a nested unsupported value is reported, not dropped.
 //@ func ToObject, ToObjectAlt
+//@ params v
+//@ results ret err
+//@ ensures[total]  (ret != nil) != (err != nil)
+//@ ensures[nested] err == nil ==> specNoNilElems(v, ret)
+//@ loop 0 invariant m != nil && specMapNoNil(m)
+//@ loop 1 invariant len(arr) == len(v)
+//@ loop 1 invariant forall k int :: 0 <= k && k < verifIdx ==> arr[k] != nil
+//@ split returns
 //@ property C20
 
 //@ func ToInterface
